@@ -330,4 +330,36 @@ ToProjV(v) == IF "m" \in DOMAIN v THEN [m |-> ToProj(v.m)]
               ELSE IF "p" \in DOMAIN v THEN [p |-> [i \in 1..Len(v.p) |-> <<ToProjV(v.p[i][1]), ToProjV(v.p[i][2])>>]]
               ELSE v
 ToProj(m) == [f |-> [i \in 1..Len(m.f) |-> <<m.f[i][1], ToProjV(m.f[i][2])>>], u |-> RawU(m.u, 1)]
+
+\* ------------------------------------------------------------------ encoding (a canonical one: number order, unknown last)
+\* Used for specification-level laws (Decode(Encode(m)) = m, merge = concatenation) and to produce wire
+\* inputs; the implementation's own byte order is not prescribed by any property and is never compared.
+EncScalarVal(kind, b) ==
+  CASE kind \in {"int32", "enum"} -> EncVarint(SignExt(b, 8))
+    [] kind = "uint32" -> EncVarint(Trunc(b, 8))
+    [] kind = "sint32" -> EncVarint(ZigZagEnc32(b))
+    [] kind \in {"int64", "uint64"} -> EncVarint(b)
+    [] kind = "sint64" -> EncVarint(ZigZagEnc64(b))
+    [] kind = "bool" -> b
+    [] kind \in Fixed32Kinds \cup Fixed64Kinds -> b
+    [] OTHER -> EncBytes(b)              \* string, bytes
+RECURSIVE Encode(_, _), EncField(_, _), EncList(_, _, _), EncPacked(_, _, _), EncMap(_, _, _), EncFields(_, _, _)
+EncSingle(fd, v) ==
+  IF fd.kind = "group" THEN EncTag(fd.num, 3) \o Encode(fd.msg, v.m) \o EncTag(fd.num, 4)
+  ELSE IF fd.kind = "message" THEN EncTag(fd.num, 2) \o EncBytes(Encode(fd.msg, v.m))
+  ELSE EncTag(fd.num, WireOf(fd.kind)) \o EncScalarVal(fd.kind, v.s)
+EncList(fd, l, i) == IF i > Len(l) THEN <<>> ELSE EncSingle(fd, l[i]) \o EncList(fd, l, i + 1)
+EncPacked(fd, l, i) == IF i > Len(l) THEN <<>> ELSE EncScalarVal(fd.kind, l[i].s) \o EncPacked(fd, l, i + 1)
+EncMap(fd, ps, i) ==
+  IF i > Len(ps) THEN <<>>
+  ELSE LET kf == FieldOf(fd.msg, 1)  vf == FieldOf(fd.msg, 2) IN
+       EncTag(fd.num, 2) \o EncBytes(EncSingle(kf, ps[i][1]) \o EncSingle(vf, ps[i][2])) \o EncMap(fd, ps, i + 1)
+EncField(fd, v) ==
+  IF fd.ismap THEN EncMap(fd, v.p, 1)
+  ELSE IF fd.card = "rep" THEN
+       (IF fd.packed /\ fd.kind \in NumericKinds THEN EncTag(fd.num, 2) \o EncBytes(EncPacked(fd, v.l, 1))
+        ELSE EncList(fd, v.l, 1))
+  ELSE EncSingle(fd, v)
+EncFields(t, fs, i) == IF i > Len(fs) THEN <<>> ELSE EncField(FieldOf(t, fs[i][1]), fs[i][2]) \o EncFields(t, fs, i + 1)
+Encode(t, m) == EncFields(t, m.f, 1) \o RawU(m.u, 1)
 =============================================================================
